@@ -101,8 +101,24 @@ fn check_spellings(c: &(PepV, Vec<Spelling>), cx: &mut Cx) -> Res {
 
 /// pairs differing in exactly one field (deciding component deep in the key)
 fn related() -> BoxedStrategy<(PepV, PepV)> {
-    (gens::pep::pepv(4), gens::pep::pepv(4), 0usize..9, any::<prop::sample::Index>(), gens::pick(&["a", "z", "0", "9", "1"]))
+    (gens::pep::pepv(4), gens::pep::pepv(4), 0usize..11, any::<prop::sample::Index>(), gens::pick(&["a", "z", "0", "9", "1"]))
         .prop_map(|(mut a, d, f, at, ch)| {
+            if f >= 9 {
+                // neighbours: one number of the version differs by exactly 1 (or by a few), at any
+                // magnitude - what a comparison through a lossy key (f32, packed integers) cannot tell apart
+                let big = [16_777_216u64, 16_777_217, 20_000_000, 1_729_924_622, 2_147_483_647, 4_294_967_000, 4_294_967_294];
+                let base = big[at.index(big.len())];
+                let step = if f == 9 { 1 } else { 1 + (d.epoch % 40) };
+                let mut b = a.clone();
+                match d.release.len() % 4 {
+                    0 => { a.post = Some(base); b.post = Some(base + step.min(4_294_967_295 - base)); }
+                    1 => { a.dev = Some(base); b.dev = Some(base + step.min(4_294_967_295 - base)); }
+                    2 => { a.pre = Some((a.pre.map(|p| p.0).unwrap_or(1), base)); b.pre = Some((a.pre.unwrap().0, base + step.min(4_294_967_295 - base))); }
+                    _ => { a.release = vec![1, base]; b.release = vec![1, base + step.min(4_294_967_295 - base)]; }
+                }
+                b.local = a.local.clone();
+                return (a, b);
+            }
             if f >= 7 {
                 // one local segment changed in its last character / lengthened by one character
                 // (the deciding character may lie far behind the 40th)
